@@ -621,6 +621,39 @@ def legacy_rules(rep, model):
         guarded(rep, 'R2', 'x.ufuncs.%s(%s)%s' % (
             name, ','.join(extra), '' if okind is None else ',out=' + okind),
             f, UFN)
+    # keyword arguments of the ufunc (dtype=, where= with out=) reach the
+    # NumPy call through the legacy wrappers as well
+    for name, extra in (('sin', []), ('add', ['y']), ('add', ['arr'])):
+        for kwname in ('dtype', 'where'):
+            def f(name=name, extra=extra, kwname=kwname):
+                I, H = setup2()
+                x = tensor(H, 'x')
+                ops = [x]
+                for e in extra:
+                    ops.append(tensor(H, 'y') if e == 'y' else symbols(
+                        'a', SHAPE))
+                u = UFUNCS[name]
+                kw = {}
+                o = None
+                if kwname == 'dtype':
+                    kw['dtype'] = DT('float32')
+                else:
+                    mask = _np.zeros(SHAPE, dtype=object)
+                    for idx in _np.ndindex(*SHAPE):
+                        mask[idx] = (sum(idx) % 2 == 0)
+                    kw['where'] = NA(mask, 'bool')
+                    o = make_out(H, 'tensor', SHAPE, 'float64')
+                    kw['out'] = o
+                okw = dict(kw)
+                if o is not None:
+                    okw['out'] = (o,)
+                want, _ = oracle(model, u, '__call__', ops, okw)
+                ret = I.call(I.getattr_value(ufuncs_of(I, x), name), ops[1:],
+                             kw)
+                return check_operands(H, ops) or check_result(
+                    ret, want, o, 'tensor' if o is not None else None)
+            guarded(rep, 'R2', 'x.ufuncs.%s(%s,%s=...)' % (
+                name, ','.join(extra), kwname), f, UFN)
     for red, uname in (('sum', 'add'), ('prod', 'multiply'),
                        ('min', 'minimum'), ('max', 'maximum')):
         for kw in ({}, {'axis': 1}, {'axis': 0, 'keepdims': True},
@@ -805,6 +838,29 @@ def wrapping_rules(rep, model):
             return '__array__(float32) does not convert the values'
     guarded(rep, 'R4', 'NumpyTensorSpace.element(ndarray) shares memory',
             share)
+
+    def share_views():
+        # views with the matching dtype and shape are wrapped, not copied,
+        # whatever their strides are (reversed, transposed, strided)
+        for what, view in (
+                ('a reversed view arr[::-1]', lambda a: a[::-1]),
+                ('a view reversed in the last axis', lambda a: a[:, ::-1]),
+                ('a transposed (Fortran ordered) array',
+                 lambda a: a.T.copy().T),
+                ('every second column of a wider array', None)):
+            I, H, sp = mk()
+            if view is None:
+                base = symbols('b', (SHAPE[0], 2 * SHAPE[1]))
+                arr = NA(base.a[:, ::2], 'float64')
+            else:
+                base = symbols('a', SHAPE)
+                arr = NA(view(base.a), 'float64')
+            el = I.call(I.getattr_value(sp, 'element'), [arr], {})
+            d = data_of(el)
+            if not (isinstance(d, NA) and _np.shares_memory(d.a, arr.a)):
+                return 'wrapping %s copies it' % what
+    guarded(rep, 'R4', 'NumpyTensorSpace.element(views) shares memory',
+            share_views)
 
     def same_elem():
         I, H, sp = mk()
